@@ -77,7 +77,7 @@ type Provider struct {
 
 type provider struct {
 	close func() error                      `name:"!!"`
-	begin func() ([]call, error)            `name:"!"`
+	begin func() (*[]call, error)           `name:"!"`
 	end   func(results []returnValue) error `name:"="`
 }
 
@@ -272,7 +272,11 @@ func (p *Provider) Listen() {
 		if calls == nil {
 			return
 		}
-		go p.dispatch(calls)
+		// an empty list is the caller's idle time-out (it decodes as a nil slice,
+		// which only the pointer tells apart from the null that means stop)
+		if len(*calls) > 0 {
+			go p.dispatch(*calls)
+		}
 	}
 }
 
